@@ -185,6 +185,12 @@ def rawStructure (body : Bytes) : String :=
   let (items, ended, us, pos) := walkChunks (body.length + 1) body [] 0 0
   "R;k=" ++ ",".intercalate items ++ s!";e={if ended then 1 else 0};u={us};c={pos}" ++ (if ended then s!";tail={body.length - pos}" else ";T")
 
+/-- driver-level operation: a history `Op`, or `h:<len>` = one lzma_code(LZMA_RUN) call with <len> bytes of input whose
+    output space ends inside the Block Header it starts -/
+inductive DOp where
+  | op (o : Op)
+  | hdr (n : Nat)
+
 def parseOp (s : String) : Option Op :=
   match s.splitOn ":" with
   | [k, arg] =>
@@ -202,7 +208,8 @@ def runCase (ws : List String) : Option String := do
     let fs ← parseChain chain
     let check ← check.toNat?
     let scr ← parseScript script
-    let ops ← ops.mapM parseOp
+    let ops ← ops.mapM fun (t : String) =>
+      if t.startsWith "h:" then (t.drop 2).toNat?.map DOp.hdr else (parseOp t).map DOp.op
     let E := scriptEnv scr
     let kparts := kind.splitOn ":"
     let isMt := kparts.head? == some "mt"
@@ -235,7 +242,9 @@ def runCase (ws : List String) : Option String := do
       if e.dead || e.finished then
         rcs := "-" :: rcs
       else
-        let (e1, res) := e.step E op
+        let (e1, res) := match op with
+          | .op o => e.step E o
+          | .hdr n => e.startHeaderOp E (zeros n)
         e := e1
         totalIn := totalIn + res.used
         rcs := toString res.ret.toNat :: rcs
